@@ -407,7 +407,8 @@ struct timespec* sentTime) {
     }
     clockGettime(&m_lastSynReceiveTime);
     m_crc = 0;  // not done by setState() when already in bs_ready, e.g. after a lone escape symbol
-    return setState(bs_ready, m_state == bs_skip || m_remainLockCount > 0 ? result : RESULT_ERR_SYN);
+    return setState(bs_ready, m_currentRequest == nullptr && (m_state == bs_skip || m_remainLockCount > 0)
+      ? result : RESULT_ERR_SYN);  // an own request in progress is always ended by a SYN
   }
 
   if (sending && m_state != bs_ready) {  // check received symbol for equality if not in arbitration
